@@ -223,6 +223,10 @@ def run(rep):
                 for f in ("self.events", "self.subscriptions", "self.all_events"):
                     if f in ds:
                         srcs.add(f)
+    # ... each connection once: the ids are collected in a set before they are handed out
+    _sc, ok1, ret = broker.subscribed_conn_ids_once(prog)
+    rep.check(ok1, "C04-R4", sc.def_, "each-connection-once", "subscribed_conn_ids must hand out every subscribed connection once (collected in a set): a connection holding several subscriptions of the service would otherwise be told ServiceDestroyed several times",
+              detail={"returns": sorted(ret)})
     rep.check({"self.events", "self.subscriptions"} <= srcs, "C04-R4", sc.def_, "covers-event-and-service-subscribers", "subscribed_conn_ids must cover event-id subscribers and service subscribers; covers %s" % sorted(srcs), detail={"covers": sorted(srcs)})
     ub = prog.one(r"^aldrin_broker::broker::conn_state::ConnectionState::unsubscribe_all$")
     cleared = set()
